@@ -324,6 +324,10 @@ static long next_time(void)
             struct vhost *h = &vhosts[t->pend.a];
             if (h->conn_kind != CONN_HANG) c = h->conn_at;
             else if (ct > 0 && sleeper) c = vclock + 1;
+        } else if (t->pend.kind == OP_SLEEP && (t->kind == 1 || t->kind == 4)) {
+            /* a WORKER sleeps (waiting out a grace period; no worker of the tree as it is does): its wake-up is a real
+             * future event */
+            c = t->pend.b;
         } else if (t->pend.kind == OP_DESTROYEND) {
             struct vhost *h = &vhosts[t->pend.a];
             int stt = verif_t_state((int) t->pend.a);
